@@ -62,6 +62,9 @@ def run_property(pid, args, contracts, seed):
             exp = pool.map(_cli._explore_worker, [c.name for c in sel], chunksize=1)
     recs = []
     unavailable = []
+    if args.verbose:
+        print("  explored %d contracts, %d paths, %d obligation records in %.1fs" % (
+            len(exp), sum(e["paths"] for e in exp), sum(len(e["recs"]) for e in exp), time.time() - t_start), file=sys.stderr, flush=True)
     for e in exp:
         if e["status"] == "crash":
             crashes.append("%s: %s" % (e["contract"], e["note"][-1500:]))
@@ -76,9 +79,13 @@ def run_property(pid, args, contracts, seed):
     t_solve0 = time.time()
     if uniq:
         with ctx.Pool(min(jobs, len(uniq))) as pool:
-            out = pool.map(_cli._solve_worker, [(r, seed, scale) for r in uniq], chunksize=1)
-        for r, o in zip(uniq, out):
-            results[r["key"]] = o
+            for key, o in pool.imap_unordered(_solve_keyed, [(r, seed, scale) for r in uniq], chunksize=1):
+                results[key] = o
+                if args.verbose and (o["status"] != "unsat" or o.get("seconds", 0) > 5):
+                    rr = next(x for x in uniq if x["key"] == key)
+                    if rr["kind"] not in ("canary", "cover"):
+                        print("  .. %-46s %-30s %-8s %-6s %6.1fs" % (rr["contract"][:46], rr["name"][:30], o["status"], o.get("backend"),
+                                                                  o.get("seconds", 0)), file=sys.stderr, flush=True)
     solver_wall = time.time() - t_solve0
     for r in recs:
         if r.get("trivial") is not None:
@@ -323,6 +330,10 @@ def run_property(pid, args, contracts, seed):
         write_evidence(pid, tier, seed, sel, exp, recs, n_obl, n_dis, by_backend, solver_cpu, solver_wall, canaries, covers,
                        bounded, extra, violations, known_printed, undecided, unavailable, samples, wall)
     return exit_code
+
+
+def _solve_keyed(a):
+    return a[0]["key"], _cli._solve_worker(a)
 
 
 def _code_changed(ledger, e):
